@@ -294,13 +294,13 @@ func TestCrash(t *testing.T) {
 							// neither the state before nor the state after the interrupted step
 							for _, d := range post.Divs {
 								d.Note = "vs state AFTER the interrupted step; " + d.Note
+								d.Alt = "after"
 								r.Divs = append(r.Divs, d)
-								break
 							}
 							for _, d := range prev.Divs {
 								d.Note = "vs state BEFORE the interrupted step; " + d.Note
+								d.Alt = "before"
 								r.Divs = append(r.Divs, d)
-								break
 							}
 						} else {
 							outcome = "before"
